@@ -312,33 +312,53 @@ func evalOb(c *Ctx, e *e1, ob Ob) (nMatched int) {
 		if s.kind != kind {
 			continue
 		}
-		b := base.clone()
-		if pat != nil {
+		// variants: the bindings under which this site matches the sink pattern, each with the path states it holds for.
+		// The spelled term is tried first (all states); otherwise every state is tried with the candidate spellings of the
+		// value the sink receives on *that* path (temporaries replaced by their definitions, helper calls by the value they
+		// returned): `return err` after a helper that returned ErrX on one path and ErrY on another is two different sinks.
+		type variant struct {
+			b   Bind
+			idx []int
+		}
+		var variants []variant
+		allIdx := make([]int, len(s.states))
+		for i := range s.states {
+			allIdx[i] = i
+		}
+		if pat == nil {
+			variants = []variant{{base.clone(), allIdx}}
+		} else {
 			st := s.term
-			if !unify(pat, st, b) {
-				// a temporary introduced for part of the sink expression does not change what the sink receives: try the
-				// sink term with variables replaced by their (still valid) definitions
-				matchedX := false
-				if len(s.states) > 0 && s.kind != "ret" || (s.kind == "ret" && len(s.states) > 0) {
-					cands := f.expandDefs(s.states[0], st)
-					// ... and with calls of interpreted helpers replaced by the value they returned on this path
-					if r := expandReturned(s.states[0], st); r != nil {
+			b0 := base.clone()
+			if unify(pat, st, b0) {
+				variants = []variant{{b0, allIdx}}
+			} else {
+				byKey := map[string]int{}
+				for i := range s.states {
+					cands := f.expandDefs(s.states[i], st)
+					if r := expandReturned(s.states[i], st); r != nil {
 						cands = append(cands, r)
-						cands = append(cands, f.expandDefs(s.states[0], r)...)
+						cands = append(cands, f.expandDefs(s.states[i], r)...)
 					}
-					if nf := normalForm(s.states[0], st); nf != nil {
+					if nf := normalForm(s.states[i], st); nf != nil {
 						cands = append(cands, nf)
 					}
-					cands = append(cands, rewriteClosure(s.states[0], st, 160)...)
+					cands = append(cands, rewriteClosure(s.states[i], st, 160)...)
 					for _, x := range cands {
 						nb := base.clone()
 						if unify(pat, x, nb) {
-							b, matchedX = nb, true
+							k := bindKey(nb)
+							if vi, ok := byKey[k]; ok {
+								variants[vi].idx = append(variants[vi].idx, i)
+							} else {
+								byKey[k] = len(variants)
+								variants = append(variants, variant{nb, []int{i}})
+							}
 							break
 						}
 					}
 				}
-				if !matchedX {
+				if len(variants) == 0 {
 					if os.Getenv("E1DEBUGOB") == ob.ID {
 						fmt.Fprintf(os.Stderr, "  %s: no match %s (chain %q) base=%v\n", ob.ID, st, s.chain, base)
 						if os.Getenv("E1DEBUGFACTS") != "" && len(s.states) > 0 && strings.Contains(st.String(), os.Getenv("E1DEBUGFACTS")) {
@@ -359,6 +379,9 @@ func evalOb(c *Ctx, e *e1, ob Ob) (nMatched int) {
 				}
 			}
 		}
+		siteCounted := false
+		for _, vr := range variants {
+		b := vr.b
 		excluded := false
 		for _, np := range nots {
 			nb := base.clone()
@@ -376,7 +399,8 @@ func evalOb(c *Ctx, e *e1, ob Ob) (nMatched int) {
 		}
 		// choose the states this obligation is about
 		var states []*fstate
-		for i, st := range s.states {
+		for _, i := range vr.idx {
+			st := s.states[i]
 			switch ob.Kind {
 			case "ret ok":
 				if !s.ok[i] {
@@ -398,12 +422,18 @@ func evalOb(c *Ctx, e *e1, ob Ob) (nMatched int) {
 			continue
 		}
 		if ob.Forbid {
-			matched++
+			if !siteCounted {
+				matched++
+				siteCounted = true
+			}
 			c.R.Find(Finding{Rule: ob.ID, Func: fi.Name, Construct: "forbidden " + ob.Kind + " " + headOf(s.term), Pos: c.P.Position(s.pos),
 				Msg: fmt.Sprintf("`%s` in %s matches the forbidden pattern `%s`%s", s.term, fi.Name, ob.Pat, whySuffix(ob.Why)), Ctl: fi.Ctl})
 			continue
 		}
-		matched++
+		if !siteCounted {
+			matched++
+			siteCounted = true
+		}
 		head := headOf(s.term)
 		ord[head]++
 		construct := fmt.Sprintf("%s %s#%d", ob.Kind, head, ord[head])
@@ -429,6 +459,7 @@ func evalOb(c *Ctx, e *e1, ob Ob) (nMatched int) {
 		c.R.Obl(Obligation{Rule: ob.ID, Func: fi.Name, Construct: construct, Pos: pos, Discharged: discharged, Nontrivial: len(clauses) > 0 && len(how) > 0,
 			How: append([]string{fmt.Sprintf("%d path class(es); requires %s", len(states), strings.Join(ob.Req, " ; "))}, how...), Ctl: fi.Ctl})
 		c.R.CallSites++
+		}
 	}
 	min := ob.Min
 	if min == 0 && !ob.Opt {
@@ -744,4 +775,22 @@ func normalForm(st *fstate, t *Term) *Term {
 		return nil
 	}
 	return out
+}
+
+func bindKey(b Bind) string {
+	ks := make([]string, 0, len(b))
+	for k := range b {
+		ks = append(ks, k)
+	}
+	sort.Strings(ks)
+	var sb strings.Builder
+	for _, k := range ks {
+		sb.WriteString(k)
+		sb.WriteString("=")
+		if b[k] != nil {
+			sb.WriteString(b[k].Key())
+		}
+		sb.WriteString(";")
+	}
+	return sb.String()
 }
